@@ -12,6 +12,8 @@ from vcheck.core import Task, Violation
 ID = 'C07'
 LEVEL = 'exploration'
 BUDGET = {'quick': 60, 'thorough': 600}
+# deterministic sub-checks repeated in a `python -O` child (core.optimized_child)
+OPT_SUBS = ('sweep',)
 RULE = ('well-formed images of the ten formats built from their layouts with '
         'the declared size drawn over the whole field range (0, 1, 2^k+-1, '
         '2^32+-1, 2^63, 2^64-1, random; ISO: u32 blocks x u16 block size; '
